@@ -189,6 +189,12 @@ def VOwner.setVal (w : VOwner) (f : Field) (m : AMap) : VOwner :=
 def appendV (v : AMap) (xs : List Nat) : AMap :=
   if xs.isEmpty then v else AMap.ofList (v.toList ++ xs)
 
+/-- field value of a derived record -/
+def deriveVal (t : Table) (w : VOwner) (f : Field) : AMap :=
+  match t f with
+  | .absent => []
+  | _ => w.val f
+
 def stepV (s : VState) : Prim → VState
   | .newClient =>
     { count := s.count + 1
@@ -198,10 +204,7 @@ def stepV (s : VState) : Prim → VState
       let w := s.owner src
       { count := s.count + 1
         owner := fun i => if i = s.count then
-            ⟨if req then some src else none,
-             fun f => match t f with
-               | .absent => []
-               | _ => w.val f⟩
+            ⟨if req then some src else none, deriveVal t w⟩
           else s.owner i }
     else s
   | .set o f k vs =>
